@@ -199,6 +199,7 @@ def _dop_parameter_comparison(attr):
     from contracts import build as B
     d1 = B.dop("d", 8)
     p1 = B.value_param("p", d1, 1, default="3")
+    B.request([p1], name="rq1")  # (the library resolves the DOP reference and the default value)
     # the second parameter has identical fields (same DOP-REF!) - only the resolved DOP object differs
     if attr == "linked_dop_bit_length":
         d2 = B.dop("d", 16)
@@ -214,6 +215,9 @@ def _dop_parameter_comparison(attr):
         d2 = d1
         expected = ["Default value"]
     p2 = B.value_param("p", d2, 1, default="4" if attr == "default_value" else "3")
+    if d2 is d1:
+        B.note(d1)
+    B.request([p2], name="rq2")
     r = Comparison().compare_parameters(p1, p2)
     H.cover("done")
     H.check("C18:exactly-the-differing-attributes-are-listed", r["Property"] == expected)
